@@ -11,7 +11,9 @@
 //!                   stdin: JSON array of cases
 //!                     {"mode":"memfs"|"vfs", "dir": base directory (vfs mode; created and removed here),
 //!                      "files":[[path,text],..] (the static disk), "include_dir": null|path,
-//!                      "history":[[kind,path,text],..]  kind = "touch" | "raw"}
+//!                      "history":[[kind,path,text],..]  kind = "touch" | "raw",
+//!                      "full": true -> every step also carries "queries": the full query set of the
+//!                      public Analysis API of the real AnalysisHost, keyed by path (memfs mode)}
 //!                   stdout: ONE LINE PER CASE, flushed: {"steps":[..]} | {"panic":msg} | {"timeout":true}.
 //!                   After a timeout the process exits (the hung thread cannot be stopped) and the
 //!                   driver restarts it with the remaining cases; a stack overflow aborts the process
@@ -53,6 +55,15 @@ fn abs_of(text: &str) -> Value {
     }
     Value::Array(items)
 }
+
+/// Trees in which `Vfs` has no `set_open_document` (before the D8 repair): `Server::set_file_content` has no
+/// such statement there either.  An inherent method takes precedence over this trait method, so on the
+/// repaired tree the real `Vfs::set_open_document` is called.
+#[allow(dead_code)]
+trait NoOpenDocuments {
+    fn set_open_document(&mut self, _path: FilePath, _text: String) {}
+}
+impl NoOpenDocuments for Vfs {}
 
 enum Fs {
     Mem(MemFs),
@@ -222,6 +233,80 @@ fn dump_host(fs: &MemFs, host: &AnalysisHost) -> Value {
     json!({"diagnostics": dj, "links": links, "outline": outline})
 }
 
+/// the full query set of the public Analysis API of the real AnalysisHost, keyed by path (C07):
+/// per workspace file: folding ranges, inlay hints over the whole file, and at every offset
+/// goto_definition / references / hover (non-null answers only) and the completion labels.
+fn dump_queries(fs: &MemFs, host: &AnalysisHost, texts: &std::collections::HashMap<String, String>) -> Value {
+    use ide::file_system::{FilePosition, FileRange};
+    use syntax::parser::{TextRange, TextSize};
+    let a = host.analysis();
+    let diags = a.diagnostics();
+    let mut files: Vec<FileId> = diags.keys().copied().collect();
+    files.sort_by_key(|f| fs.path_str(f));
+    let mut out = serde_json::Map::new();
+    for f in &files {
+        let name = fs.path_str(f);
+        let text = texts.get(&name).cloned().unwrap_or_default();
+        let len = text.len() as u32;
+        let mut o = serde_json::Map::new();
+        let fold = std::panic::catch_unwind(AssertUnwindSafe(|| {
+            a.folding_range(*f).map(|v| {
+                v.iter().map(|r| json!([u32::from(r.range.start()), u32::from(r.range.end())])).collect::<Vec<_>>()
+            })
+        }));
+        o.insert("folding".into(), fold.map(|v| json!(v)).unwrap_or(json!("panic")));
+        let hints = std::panic::catch_unwind(AssertUnwindSafe(|| {
+            a.inlay_hint(FileRange::new(*f, TextRange::new(TextSize::from(0), TextSize::from(len)))).map(|v| {
+                v.iter()
+                    .map(|h| json!([u32::from(h.position), h.label.clone(), format!("{:?}", h.kind)]))
+                    .collect::<Vec<_>>()
+            })
+        }));
+        o.insert("inlay".into(), hints.map(|v| json!(v)).unwrap_or(json!("panic")));
+        let mut at = Vec::new();
+        for off in 0..=len {
+            if !text.is_char_boundary(off as usize) {
+                continue;
+            }
+            let pos = FilePosition::new(*f, TextSize::from(off));
+            let r = std::panic::catch_unwind(AssertUnwindSafe(|| {
+                let d = a
+                    .goto_definition(pos)
+                    .map(|r| json!([fs.path_str(&r.file), u32::from(r.range.start()), u32::from(r.range.end())]));
+                let rs = a.references(pos).map(|v| {
+                    let mut w: Vec<(String, u32, u32)> = v
+                        .iter()
+                        .map(|r| (fs.path_str(&r.file), u32::from(r.range.start()), u32::from(r.range.end())))
+                        .collect();
+                    w.sort();
+                    w
+                });
+                let h = a.hover(pos).map(|h| json!([h.signature, h.document]));
+                let c = a.completion(pos, None).map(|v| {
+                    let mut w: Vec<String> = v.iter().map(|c| format!("{}:{:?}", c.label, c.kind)).collect();
+                    w.sort();
+                    w
+                });
+                (d, rs, h, c)
+            }));
+            match r {
+                Ok((d, rs, h, c)) => {
+                    if d.is_some() || rs.is_some() || h.is_some() {
+                        at.push(json!([off, d, rs, h]));
+                    }
+                    if off % 7 == 0 {
+                        at.push(json!([off, "completion", c]));
+                    }
+                }
+                Err(_) => at.push(json!([off, "panic"])),
+            }
+        }
+        o.insert("at".into(), Value::Array(at));
+        out.insert(name, Value::Object(o));
+    }
+    Value::Object(out)
+}
+
 fn run_case(case: &Value) -> Value {
     let mode = case["mode"].as_str().unwrap_or("memfs");
     let files = case["files"].as_array().expect("files");
@@ -278,6 +363,14 @@ fn run_case(case: &Value) -> Value {
                 d["host_agrees"] = json!(same);
                 if !same {
                     d["host"] = h;
+                }
+                if case["full"].as_bool() == Some(true) {
+                    let texts: std::collections::HashMap<String, String> = fs2
+                        .contents
+                        .iter()
+                        .map(|(k, v)| (k.0.to_string_lossy().to_string(), v.clone()))
+                        .collect();
+                    d["queries"] = dump_queries(&fs2, &host, &texts);
                 }
             }
         }
